@@ -96,7 +96,7 @@ class AsyncRequest {
    **/
   OpResult getUpdate() {
     RequestState state = kReady;
-    DISPENSO_VERIF_POINT("ar.getUpdate.load", &state_);
+    DISPENSO_VERIF_POINT("ar.getUpdate.cas", &state_);
     if (state_.compare_exchange_strong(state, kUpdating, std::memory_order_acq_rel)) {
       DISPENSO_VERIF_POINT("ar.getUpdate.move", &obj_);
       auto obj = std::move(obj_);
